@@ -171,6 +171,46 @@ fn callback_case(n: usize, stop: usize, sink: Sink, path: Path) -> R {
     Ok(digest(&(n, stop, sink as u8, path as u8, got)))
 }
 
+/// ONE callback fed in two rounds (a paging sink: the consumer asks for the next page through the same callback): every round is
+/// a feeding of its own - the closure is invoked once per offered item again, also after an earlier round was stopped by it.
+/// The closure returns false exactly on its `stop`-th invocation overall (0 = never).
+fn reuse_case(n1: usize, n2: usize, stop: usize, path: u8) -> R {
+    let drops_scope = DropScope::new();
+    let mut seen: Vec<u64> = Vec::with_capacity(n1 + n2 + 1);
+    let mut closure = |d: Dc| {
+        seen.push(d.val);
+        !(stop != 0 && seen.len() == stop)
+    };
+    let round1: Vec<Dc> = (1..=n1 as u64).map(Dc::new).collect();
+    let round2: Vec<Dc> = (101..=100 + n2 as u64).map(Dc::new).collect();
+    let want1 = if stop != 0 && stop <= n1 { stop } else { n1 };
+    let want2 = if stop > want1 && stop - want1 <= n2 && stop > n1 { stop - n1 } else { n2 };
+    let (o1, o2) = {
+        let mut cb: OpaqueCallback<Dc> = (&mut closure).into();
+        match path {
+            0 => (round1.into_iter().feed_into_mut(&mut cb), round2.into_iter().feed_into_mut(&mut cb)),
+            1 => (drive_generic(&mut cb, round1), drive_generic(&mut cb, round2)),
+            _ => {
+                let mut k1 = 0;
+                for it in round1 {
+                    k1 += 1;
+                    if !cb.call(it) {
+                        break;
+                    }
+                }
+                (k1, round2.into_iter().feed_into(cb))
+            }
+        }
+    };
+    ensure!(o1 == want1, "cb:count", "first round: reported {} item(s) offered, expected {} (n1={}, stop={})", o1, want1, n1, stop);
+    ensure!(o2 == want2, "cb:reuse_count", "second round through the same callback: reported {} item(s) offered, expected {} (n1={}, n2={}, the closure returned false on invocation {})", o2, want2, n1, n2, stop);
+    let want: Vec<u64> = (1..=want1 as u64).chain(101..=100 + want2 as u64).collect();
+    ensure!(seen == want, "cb:reuse_delivery", "over two rounds through one callback the closure received {:?}, expected {:?} (n1={}, n2={}, stop={})", seen, want, n1, n2, stop);
+    let bad = drops_scope.not_equal(1);
+    ensure!(bad.is_empty(), "cb:final_drop", "items {:?} not dropped exactly once", bad);
+    Ok(digest(&(n1, n2, stop, path, seen)))
+}
+
 // ------------------------------------------------------------------------------------------
 // iterators
 
@@ -463,6 +503,27 @@ fn main() {
                 let sink: Sink = serde_json::from_value(c["sink"].clone()).unwrap();
                 let path: Path = serde_json::from_value(c["path"].clone()).unwrap();
                 run(|| callback_case(c["n"].as_u64().unwrap() as usize, c["stop"].as_u64().unwrap() as usize, sink, path), true)
+            }),
+        },
+        Section {
+            name: "callback_reuse",
+            explore: Box::new(|cx: &Cx| {
+                let n_max = cx.tier.pick(3, 5);
+                cx.rule("callback_reuse", &format!("one OpaqueCallback over a closure fed in TWO rounds of 0..={} items each (feed_into_mut twice; Callbackable on &mut twice; call loop then feed_into) x the invocation on which the closure returns false (never, every position over both rounds): each round is a feeding of its own - the closure sees exactly the offered items of both rounds in order, each round reports its own count, every item dropped exactly once", n_max));
+                for n1 in 0..=n_max {
+                    for n2 in 0..=n_max {
+                        for stop in 0..=n1 + n2 + 1 {
+                            for path in 0..3u8 {
+                                let case = json!({"n1": n1, "n2": n2, "stop": stop, "reuse_path": path});
+                                cx.eval("callback_reuse", &case, || run(|| reuse_case(n1, n2, stop, path), n1 + n2 > 0));
+                            }
+                        }
+                    }
+                }
+            }),
+            replay: Box::new(|c: &Value| {
+                let g = |k: &str| c[k].as_u64().unwrap() as usize;
+                run(|| reuse_case(g("n1"), g("n2"), g("stop"), g("reuse_path") as u8), true)
             }),
         },
         Section {
